@@ -206,7 +206,7 @@ def check(cx):
     trunc_callers = K.callers_of(p, K.WAL_TRUNCATE)
     EXPECT = {"io::pager::Pager::truncate_wal", K.PAGER_FLUSH, "<io::pager::Pager as io::disk::FileOperations>::truncate"}
     for t in trunc_callers:
-        cx.verdict(t in EXPECT, r5, "caller:" + t, p.fn(t).where(), "expected truncation site",
+        cx.verdict(t in EXPECT, r5, "caller:" + t, p.where_of(t), "expected truncation site",
                    "new caller of WriteAheadLog::truncate — the log may be discarded here without a checkpoint")
     # inside Pager::flush: write-back + sync_header dominate the truncate
     pfl = cx.guard(r5, "Pager::flush", p.fn, K.PAGER_FLUSH)
@@ -278,7 +278,7 @@ def check(cx):
         if not cs:
             cx.bad(r7, "no-caller:" + callee, "", "%s has no caller" % callee)
         for c in cs:
-            cx.verdict(c in allowed, r7, "%s<-%s" % (callee, c), p.fn(c).where(), "expected caller",
+            cx.verdict(c in allowed, r7, "%s<-%s" % (callee, c), p.where_of(c), "expected caller",
                        "unexpected caller of %s" % callee)
 
 
